@@ -94,6 +94,9 @@ type Session struct {
 	msgMeta     *module.MsgMetadata
 	delivery    module.Delivery
 	deliveryErr error
+	// Normalized recipient address -> addresses as they
+	// were specified in RCPT TO. Used for LMTP per-recipient statuses.
+	clientRcpts map[string][]string
 
 	log log.Logger
 }
@@ -154,6 +157,7 @@ func (s *Session) cleanSession() {
 	s.msgMeta = nil
 	s.delivery = nil
 	s.deliveryErr = nil
+	s.clientRcpts = nil
 	s.msgCtx = nil
 	s.msgTask.End()
 }
@@ -406,7 +410,14 @@ func (s *Session) rcpt(ctx context.Context, to string, opts *smtp.RcptOptions) e
 		}
 	}
 
-	return s.delivery.AddRcpt(ctx, cleanTo, *opts)
+	if err := s.delivery.AddRcpt(ctx, cleanTo, *opts); err != nil {
+		return err
+	}
+	if s.clientRcpts == nil {
+		s.clientRcpts = make(map[string][]string)
+	}
+	s.clientRcpts[cleanTo] = append(s.clientRcpts[cleanTo], to)
+	return nil
 }
 
 func (s *Session) Logout() error {
@@ -509,9 +520,22 @@ func (s *Session) Data(r io.Reader) error {
 type statusWrapper struct {
 	sc smtp.StatusCollector
 	s  *Session
+
+	// Protects Session.clientRcpts, SetStatus can be called concurrently.
+	rcptsLock *sync.Mutex
 }
 
 func (sw statusWrapper) SetStatus(rcpt string, err error) {
+	// Statuses are reported for the normalized address, go-smtp expects the
+	// address as it was specified by the client.
+	// The same mailbox can be specified several times in different spellings,
+	// each RCPT TO gets its own status.
+	sw.rcptsLock.Lock()
+	if spellings := sw.s.clientRcpts[rcpt]; len(spellings) != 0 {
+		sw.s.clientRcpts[rcpt] = spellings[1:]
+		rcpt = spellings[0]
+	}
+	sw.rcptsLock.Unlock()
 	sw.sc.SetStatus(rcpt, sw.s.endp.wrapErr(sw.s.msgMeta.ID, !sw.s.opts.UTF8, "DATA", err))
 }
 
@@ -548,7 +572,7 @@ func (s *Session) LMTPData(r io.Reader, sc smtp.StatusCollector) error {
 		return wrapErr(err)
 	}
 
-	s.delivery.(module.PartialDelivery).BodyNonAtomic(bodyCtx, statusWrapper{sc, s}, header, buf)
+	s.delivery.(module.PartialDelivery).BodyNonAtomic(bodyCtx, statusWrapper{sc, s, &sync.Mutex{}}, header, buf)
 
 	// We can't really tell whether it is failed completely or succeeded
 	// so always commit. Should be harmless, anyway.
